@@ -13,4 +13,5 @@ CONSTANTS
   Normalize = FALSE
 VIEW View
 ACTION_CONSTRAINT Export
+INVARIANTS TypeOK CapacityAtGrant NoLostWakeup NoLeak OutcomeOK RoundRobinFair UserFIFO
 CHECK_DEADLOCK FALSE
